@@ -1882,7 +1882,9 @@ func (r stack) defaultAssertionHandler(x any) (str string) {
 			// symbol operators ...
 			// ik already honors the inner
 			// stack's case-folding bit
-			str = ik + ` ` + Xs.String()
+			if str = Xs.String(); len(str) > 0 {
+				str = ik + ` ` + str
+			}
 		} else {
 			str = Xs.String()
 		}
